@@ -120,7 +120,7 @@ def tlc_replay(spec, maxview, fault, dead, timeout):
         cfg += "  MaxUndeliveredMessages = 6\n"
     cfg += "CONSTRAINT %s\nINVARIANTS\n%s\n" % (spec["constraint"], "\n".join("  " + i for i in spec["invs"]))
     open(os.path.join(d, "MC.cfg"), "w").write(cfg)
-    rc, out, dt = sh(["tlc", "-workers", "4", "-deadlock", "-config", "MC.cfg", spec["module"] + ".tla"], d, timeout)
+    rc, out, dt = sh(["tlc", "-workers", "8", "-deadlock", "-config", "MC.cfg", spec["module"] + ".tla"], d, timeout)
     viol = re.search(r"Invariant (\w+) is violated", out)
     res = dict(maxview=maxview, fault=fault, dead=dead, seconds=round(dt, 1), violated=viol.group(1) if viol else None, finished="Model checking completed" in out)
     if viol:
@@ -154,7 +154,7 @@ def main():
     ev_path = os.path.join(VERIF, "evidence_scratch" if (os.environ.get("VERIF_REPO") or os.environ.get("VERIF_EVIDENCE_SCRATCH")) else "evidence", "C20.json")
     if os.path.exists(ev_path):
         os.remove(ev_path)
-    bmc_len = int(os.environ.get("C20_BMC", {"quick": 4, "thorough": 8}[tier])) if tier in ("quick", "thorough") else 5
+    bmc_len = int(os.environ.get("C20_BMC", {"quick": 3, "thorough": 8}[tier])) if tier in ("quick", "thorough") else 5
     q_timeout = 900 if tier == "quick" else 3600
     results, problems, violations, notes = {}, [], [], []
     known_printed = set()
